@@ -36,6 +36,8 @@ add("C23", "Eight metamorphic relations applied only where sound (add filter => 
 add("C24", "Compile-time Send+Sync assertion for Schema, IndexedQuery, IRQuery, InterpretedQuery, FieldValue, Type, EdgeParameters; and Miri as the thread scheduler (one -Zmiri-seed = one repeatable interleaving, data-race and UB detection): 2-3 threads from a barrier with cold statics parse/compile/execute concurrently, then share one Arc<Schema> and one Arc<IndexedQuery>; results must equal a sequential recomputation.", "Few interleavings per minute; assurance rests on the shared state being five OnceLock statics plus Arc counters, all visible to Miri (a change adding new shared state is seen too, unlike with shimmed primitives).", "deterministic simulation: Miri-seeded thread schedules with race detection; compile-time bound check", engine="mirisim")
 add("C25", "Fault enumeration: for each generated schema, every single contract violation (reorder by swap/rotate/reverse; non-null property, a neighbor, or a true coercion for a context without an active vertex) at every (resolver, type, field) site the checker reaches and at first/middle/last position is injected into an otherwise correct adapter, one per run of the real check_adapter_invariants; it must panic exactly when the fault fired, return for the fault-free adapter, and reach every documented site.", "Exhaustive per schema over the stated single-fault space; schemas sampled by seed. The faulty adapter records that it really emitted the illegal output (fired).", "deterministic simulation: complete single-fault enumeration per schema against the real invariant checker", category="fault_enumeration")
 
+add("C20", "For each generated schema: (a) the real check_adapter_invariants must accept the real SchemaAdapter, and the engine is run over SchemaAdapter behind an order-preserving wrapper that reads ahead in tape-chosen chunks and injects contexts without an active vertex into every resolver input (answers for them must be null / no neighbors, in place); (b) three generated introspection queries over the meta-schema per schema; rows must equal the reference model evaluated on the harness's own dataset view of its schema AST (vertex types, interface flags, implements/implementer, properties and types, edges with targets, cardinalities, parameters and JSON defaults, entry points).", MODEL_NOTE + " Multisets with fold lists canonicalised: VertexType order is hash order and is not part of the claim. The meta-schema AST is a hand transcription of schema.graphql.", "deterministic simulation: perturbed input streams (read-ahead, injected vertex-less contexts) on the real SchemaAdapter + refinement against a model of the schema")
+
 not_applicable = {
     "C06": "pure set algebra on two in-memory values (hints/candidates.rs): no party, schedule, fault or interleaving to simulate; input generation would be property-based testing, a different technique",
     "C07": "each filter operator is a pure function of two values (filtering.rs): nothing to schedule or fault; the C01 model carries an independent copy of the definitions but the exhaustive operand-pair claim is not made",
